@@ -792,6 +792,8 @@ impl<'a> Tx<'a> {
                     let k = self.ret_count;
                     self.ret_count += 1;
                     self.mark(ind, format!("ret#{}", k));
+                    // R14: the struct literal of TreeBin::new is a store into the arena's bin object, not a value
+                    let t = if t.starts_with("h.make_bin(") { format!("{};", t) } else { t };
                     self.push(ind, t, ln, true);
                 }
             }
